@@ -118,6 +118,24 @@ def run_unit(ctx, unit):
             if _judge(ctx, unit, fargs, data, fbase, streaming, unit_id, fcases, ctx.drv.run_many([c for _, _, c in fcases])):
                 return
             st.count("directory_input_fault_sets")
+    if vr.random() < 0.25:
+        # a FILE whose read fails (a link to /proc/self/mem: reading it at offset 0 is an I/O error): named directly, with a
+        # name that is not UTF-8, or met inside a directory next to a good file - the run ends with an error, under every policy
+        nm = ("pm.json", "caf\udce9.json", "sub/pm\udcff\udcfe.json")[vr.randrange(3)]     # (a name that is not UTF-8 cannot be an argument itself)
+        layouts = [("read-file", core.Case(args + ["@D@/pm.json"], b"", links=[("pm.json", "/proc/self/mem")])),
+                   ("read-file-in-directory", core.Case(args + ["@D@/rd1"], b"", links=[("rd1/" + nm, "/proc/self/mem")]))]
+        if "take" not in unit["pipeline"]:
+            layouts += [("read-file-after-good", core.Case(args + ["@D@/good.json", "@D@/pm.json"], b"", files=[("good.json", data)], links=[("pm.json", "/proc/self/mem")])),
+                        ("read-file-next-to-good", core.Case(args + ["@D@/rd"], b"", files=[("rd/a.json", data)], links=[("rd/" + nm, "/proc/self/mem")]))]
+        for (kind, case), o in zip(layouts, ctx.drv.run_many([c for _, c in layouts])):
+            if o.result in ("timeout", "abort"):
+                st.inconc("watchdog_file_read_fault")
+                continue
+            st.count("file_read_fault_runs")
+            if o.result != "err":
+                st.violation("fault-" + ("swallowed" if o.result == "ok" else o.result) + ":" + kind, "a file whose read fails (%s, policy %s, pipeline %s): result %s %s" % (
+                    kind, unit["policy"], unit["pipeline"], o.result, o.panicinfo or o.errtext), dict(unit, focus=[kind, 0]), {"args": case.args, "obs": o.brief()})
+                return
     # in chunks, so that a fault that makes jawk hang is reported after one confirmation instead of after a watchdog period
     # for every offset of the unit
     for c in cases:
